@@ -389,6 +389,15 @@ def checkActions (pre post : Facts Float) (acts : List (SAction Float)) : Bool Ã
       | .append _ _ => go (i + 1) later okSoFar n
   go 0 acts true 0
 
+/-- every assignment of the rule has a defined value whatever the earlier ones did: the first one's right-hand side is in
+the domain on the pre-state, the later ones store literals -/
+def actsDefined (pre : Facts Float) : List (SAction Float) â†’ Bool
+  | [] => true
+  | a :: later =>
+    let rhsOf : SAction Float â†’ SRhs Float := fun b => match b with | .set _ r => r | .append _ r => r
+    Spec.wfRhs fops pre (rhsOf a) &&
+      later.all (fun b => match rhsOf b with | .lit (.expr _) => false | .lit _ => true | .expr _ => false)
+
 structure Acc where
   fail : Option String := none
   tags : List String := []
@@ -411,10 +420,22 @@ def judgeRun (name : String) (c : Case) (start : Facts Float) (r : Run) : Acc :=
     let mut firedInCycle := false
     for rule in c.rules do
       if acc.fail.isSome then break
-      -- after an error/panic the rules beyond the last reported firing are not judged
+      -- the call ended in an error / panic and no further firing was reported: a rule in the domain whose condition does
+      -- not hold is passed over; the first one whose condition holds must have run its assignments â€” when every one of
+      -- them is defined on the facts of that moment (`actsDefined`), "stores nothing and returns Err" violates the
+      -- read-back clause; anything else beyond the last reported firing is not judged
       if !okRun && firings.isEmpty then
-        stop := true
-        break
+        if Spec.wf fops cur rule.cond then
+          if Spec.holds fops cur rule.cond then
+            if actsDefined cur rule.actions then
+              acc := { acc with fail := some s!"{name}:reads_back@{rule.name}:error_instead_of_store" }
+            stop := true
+            break
+          else
+            continue
+        else
+          stop := true
+          break
       considered := considered + 1
       let firedNow := match firings with | (i, _) :: _ => i == rule.name | [] => false
       if Spec.wf fops cur rule.cond then
